@@ -294,13 +294,13 @@ theorem atom_ok {cfg : Config} {s s' : State} {obs : List Obs} (inv : Inv cfg s)
   cases h with
   | connect _ c ws isLocal addr hf => exact (trans_connect inv c ws isLocal addr hf).stepOK
   | request x c req new hnew =>
-    obtain ⟨new', resp, hout, hstep, hresp⟩ := (parseJsonRpc_ok inv c req).shape
+    obtain ⟨new', resp, hout, hstep, hresp, _⟩ := (parseJsonRpc_ok inv c req).shape
     have : new = resp ++ new' := by
       rw [hnew] at hout
       exact List.append_cancel_right hout
     subst this
     have hr : notifs resp.reverse = [] := by
-      rcases hresp with rfl | ⟨j, b, rfl, hj, _⟩
+      rcases hresp with rfl | ⟨j, b, rfl, hj⟩
       · rfl
       · simp [notifs_send, decodeNotif_of_isResp hj]
     rw [List.reverse_append, notifs_append, hr, List.append_nil]
@@ -352,7 +352,7 @@ theorem CExec.trans {cfg : Config} {x y z : Ctx} {a b : List (List Obs × State)
 
 theorem cexec_rpc {cfg : Config} {x : Ctx} (inv : Inv cfg x.st) (c : Nat) (req : Json) :
     ∃ o, CExec cfg x [(o, (parseJsonRpc cfg x c req).1.st)] (parseJsonRpc cfg x c req).1 := by
-  obtain ⟨new, resp, hout, _, _⟩ := (parseJsonRpc_ok inv c req).shape
+  obtain ⟨new, resp, hout, _, _, _⟩ := (parseJsonRpc_ok inv c req).shape
   refine ⟨(resp ++ new).reverse, Exec.cons (Atom.request x c req (resp ++ new) hout) (Exec.nil _), ?_⟩
   simp [obsOf, hout]
 
